@@ -27,7 +27,7 @@ ASSUMPTIONS = ["clock steps >= 3 ms so millisecond truncation cannot confuse two
                "the context delta of a node that raised is not checked (the statement speaks of before/after the node)",
                "distinct content must yield distinct digests (sha256 collisions ignored)"]
 REQUIRED_PROBES = ["default_overridden_by_context", "probe_key_consumed_downstream", "local_date_ne_utc_date",
-                   "stall_between_start_and_end", "default_channel", "context_channel", "node_channel"]
+                   "stall_between_start_and_end", "default_channel", "context_channel", "node_channel", "remote_executor"]
 CONFIG = {
     "quick": {"runs": 600, "budget_s": 150, "timeout_s": 120},
     "thorough": {"runs": 20000, "budget_s": 1500, "timeout_s": 120},
@@ -37,7 +37,7 @@ CONFIG = {
 
 def generate(rng: random.Random, tier: str, seed: int) -> dict:
     base = gen.gen_pipeline(rng)
-    return {"base": base, "sub_seed": rng.getrandbits(32), "tzs": list(harness.TZS)}
+    return {"base": base, "sub_seed": rng.getrandbits(32), "tzs": list(harness.TZS), "remote_exec": rng.random() < 0.3}
 
 
 def _digest(obj) -> str:
@@ -59,6 +59,9 @@ def execute(sc: dict, seed: int) -> dict:
     leafx = [f for f in fails if f[0] == "leaf_exception"]
     for tz in sc["tzs"]:
         w = SimWorld(seed ^ hash_tz(tz), lane="c07", tz=tz)
+        w.remote_exec = bool(sc.get("remote_exec"))
+        if w.remote_exec:
+            stats["probe.remote_executor"] = 1
         try:
             rr0 = harness.run_scenario(dict(base, faults=[]), w, trace_mode="none", name="untraced")
             if not rr0["outcome"]["ok"] or len(rr0["exec_log"]) != len(base["nodes"]):
